@@ -38,7 +38,22 @@ REPO = os.environ.get("VERIF_REPO", "/repo")
 VERIF = os.path.dirname(os.path.dirname(os.path.abspath(__file__)))
 
 
-LENIENT = {"on": False, "lost": []}
+import threading
+
+
+class _Lenient(threading.local):
+    """per-thread: units are generated concurrently"""
+    def __init__(self):
+        self.d = {"on": False, "lost": []}
+
+    def __getitem__(self, k):
+        return self.d[k]
+
+    def __setitem__(self, k, v):
+        self.d[k] = v
+
+
+LENIENT = _Lenient()
 
 
 def _hint_lost(msg):
@@ -438,9 +453,11 @@ def _process_body(fs, body, src, b0, applied, out, tail_check=True):
                 if kind == "before":
                     inserts.append((offs[i_], "line", list(lines)))
                 else:
-                    inserts.append((offs[i_] + len(blines[i_]) + 1, "line", list(lines)))
+                    inserts.append((offs[i_] + len(blines[i_]) + 1, "line-after", list(lines)))
     # apply rewrites to body segments between insert points (offsets refer to the unrewritten body)
-    inserts.sort(key=lambda x: x[0])
+    # at equal offsets the hints that FOLLOW the previous line come before the hints that PRECEDE the next one
+    inserts.sort(key=lambda x: (x[0], 0 if x[1] == "line-after" else 1))
+    inserts = [(o_, "line" if m_ == "line-after" else m_, l_) for (o_, m_, l_) in inserts]
     cuts = [0] + [p for p, _, _ in inserts] + [len(body)]
     segs = [body[cuts[i]:cuts[i + 1]] for i in range(len(cuts) - 1)]
     for rw in fs.rewrites:
